@@ -1,6 +1,6 @@
 SPECIFICATION Spec
 CONSTANTS MaxLen = 3
 Alphabet <- Alpha11
-Kinds <- KindsAll
-INVARIANTS DesignOK DesignIdem CodecOK ReflexiveOK
+Kinds <- KindsQuick
+INVARIANTS DesignOK DesignIdem CodecOK ReflexiveOK AsIsOKOutsideKnown
 CHECK_DEADLOCK FALSE
